@@ -118,7 +118,7 @@ CLAIMED = {
              "request in a connected state gets exactly one answer, the matching response with its system bytes or a Reject while closing "
              "(C05_requests_answered); data while not SELECTED: one Reject reason 4, no delivery, no change (C05_data_gate); well-formed data while SELECTED "
              "delivered (C05_data_delivered); the state is always one of the three (C05_three_states). Separate.req is refuted (C05_separate_refuted, known "
-             "finding). Tied to the code by driving a real HsmsProtocol with its own threads through random/directed histories in passive and active mode. A data message answers an open DATA transaction only: with the system bytes of an open Select / Deselect / Linktest request it is delivered to the application (C05_data_delivered, D77).",
+             "finding). Tied to the code by driving a real HsmsProtocol with its own threads through random/directed histories in passive and active mode. A data message answers an open DATA transaction only: with the system bytes of an open Select / Deselect / Linktest request it is delivered to the application (C05_data_delivered, D77). HsmsProtocol.__handle_hsms_requests and the handlers it calls are translated statement by statement on every run (Gen/HsmsCtrl.v); for every control message in every state the model's step is the translated list of actions carried out (C05_control_code_is_model).",
         note=NOTE_COMMON + " Partial on 'schedules': the accept-path ordering (state entered before the receive threads start) is checked by a directed history "
              "with a Select.req already buffered, not proven over thread interleavings; T5-T8 timers are outside the model.",
         technique="Rocq proof (step simulation + invariant over all histories) + translator-regenerated state machine + in-Coq differential correspondence on a threaded rig",
